@@ -72,3 +72,28 @@ package sorting
 //@   modifies arr[..]
 //@   noinline
 //@   trusted
+
+// ---- own state per sorter (C13) ----
+// The contextual and date comparators remember what they inferred from the keys they saw (known
+// finding); at least that memory must not be shared between two sorts: each constructor call
+// returns a new comparator, and a wrapper names the comparator it wraps.
+//@ smt
+//@ (declare-fun wraps (Int) Int)
+//@ end
+//@ func ByContextualEx
+//@   ensures fresh(result)
+//@ func ByContextual
+//@   ensures fresh(result)
+//@ func ByDate
+//@   ensures fresh(result)
+//@ func ByDateWithContextual
+//@   ensures fresh(result)
+//@ func ValueNilSorter
+//@   ensures fresh(result)
+//@   ensures [assumed-names-the-captured-comparator] wraps(result) == sorter
+//@ func ValueSorterEx
+//@   ensures fresh(result)
+//@   ensures [assumed-names-the-captured-comparator] wraps(result) == fallback
+//@ func Reverse
+//@   ensures fresh(result)
+//@   ensures [assumed-names-the-captured-comparator] wraps(result) == sorter
